@@ -1,7 +1,10 @@
 package plan
 
 import (
+	"encoding/base64"
+	"encoding/json"
 	"fmt"
+	"unicode/utf8"
 
 	"verif.local/verifsim"
 )
@@ -19,6 +22,42 @@ type ObjSpec struct {
 	Kind string  `json:"kind"` // evaluator | filter
 	Expr string  `json:"expr"`
 	Opts OptSpec `json:"opts"`
+}
+
+// An expression is arbitrary bytes (generated patterns may cut a string in the
+// middle of a rune); encoding/json would silently replace invalid UTF-8 with
+// U+FFFD and the process that executes a plan would create another expression
+// than the process that generated it. Such texts travel base64-encoded.
+type objSpecJSON struct {
+	Kind    string  `json:"kind"`
+	Expr    string  `json:"expr"`
+	ExprB64 string  `json:"expr_b64,omitempty"`
+	Opts    OptSpec `json:"opts"`
+}
+
+func (o ObjSpec) MarshalJSON() ([]byte, error) {
+	j := objSpecJSON{Kind: o.Kind, Expr: o.Expr, Opts: o.Opts}
+	if !utf8.ValidString(o.Expr) {
+		j.Expr = ""
+		j.ExprB64 = base64.StdEncoding.EncodeToString([]byte(o.Expr))
+	}
+	return json.Marshal(j)
+}
+
+func (o *ObjSpec) UnmarshalJSON(b []byte) error {
+	var j objSpecJSON
+	if err := json.Unmarshal(b, &j); err != nil {
+		return err
+	}
+	o.Kind, o.Expr, o.Opts = j.Kind, j.Expr, j.Opts
+	if j.ExprB64 != "" {
+		raw, err := base64.StdEncoding.DecodeString(j.ExprB64)
+		if err != nil {
+			return err
+		}
+		o.Expr = string(raw)
+	}
+	return nil
 }
 
 // DatumSpec names a deterministic constructor (see engine.Build).
